@@ -1,6 +1,6 @@
 (* C12 — property theorems only: each restates the full statement and is closed by the lemma proved in Proofs/. *)
 From Coq Require Import ZArith List Bool.
-From NPS Require Import ListAux PySlice NumpySem Scatter BuildIdx XorBroadcast View Index Assign Reduce Scan RaOps Heap Hash HashRun BitArr RLE RLEOps RLE2d DataClass RowsSpec AssignSpec MapSpec Denote CounterProof.
+From NPS Require Import ListAux PySlice NumpySem Scatter BuildIdx XorBroadcast View Index Assign Reduce Scan RaOps Heap Hash HashRun BitArr RLE RLEOps RLE2d DataClass RowsSpec AssignSpec MapSpec Denote CounterProof FastIndices.
 Import ListNotations.
 Open Scope Z_scope.
 
@@ -29,3 +29,15 @@ Theorem C12_totals_split_and_order_invariant :
        aget Z (fold_left spec_count bs d) k = aget Z (fold_left spec_count bs' d) k.
 Proof. exact totals_split_and_order_invariant. Qed.
 Print Assumptions C12_totals_split_and_order_invariant.
+
+Theorem C12_fast_indices_is_build_indices :
+  forall rows : list row,
+       Forall (fun r : Z * Z => 1 <= snd r) rows -> fast_indices rows = build_indices rows 1.
+Proof. exact fast_indices_is_build_indices. Qed.
+Print Assumptions C12_fast_indices_is_build_indices.
+
+Theorem C12_fast_indices_correct :
+  forall rows : list row,
+       Forall (fun r : Z * Z => 1 <= snd r) rows -> fast_indices rows = spec_indices rows 1.
+Proof. exact fast_indices_correct. Qed.
+Print Assumptions C12_fast_indices_correct.
